@@ -90,7 +90,7 @@ def check_entry(rep, facts, label, entry, counters):
         fn = common.fn_of(n)
         if cls == 'guard' or cls == 'unwrapped':
             rep.ok("R10.1", key, "transport reached through %s" % ("the mutex guard kept by the repeatable lock future" if cls == 'guard' else "Arc::try_unwrap(..).into_inner() (exclusive)"), n.loc())
-        elif cls.startswith('owned:') and fn == "async_io::Token::parse_request":
+        elif cls.startswith('owned:') and fn in common.preamble_fns(facts):
             rep.ok("R10.1", key, "preamble phase: the connection task owns the writer, no Request / StreamWriter exists yet", n.loc())
         else:
             rep.violation("R10.1", key, "transport written through %s: not under the shared mutex guard nor exclusively owned" % cls, n.loc())
